@@ -163,6 +163,8 @@ def focused(tier):
     ):
         out.append(cfg("route " + name, fam, [node(c=1), node(c=1), node(c=1)],
                        {"A": klass([ARR, None, None], srv, route=rt)}, K=K, T=10.0, D=(4 if tier == "quick" else 6), features=["routing"]))
+    out += noserver_upstream_block(tier)
+    out += sched_preempt_two_upstream(tier)
     return out
 
 
